@@ -28,6 +28,15 @@ def c09(tier, replay=None):
         'EVOLUTIONS declarations (all projects with 2 apps exhaustively, 3-4 apps sampled and '
         'evaluated by TLC): %d projects, %d replayed as real projects and judged on the order of '
         'creating_models / applying_evolution signals.' % (n_cfg, n_replayed))
+    nt = set()
+    n3, n3all = _c09_migrations(report, tier, nt)
+    report.coverage['distinct_nontrivial'] += len(nt)
+    report.coverage['rule'] += (
+        ' Part 3: MigGraph.tla is the reference for evolutions next to Django migrations: two evolution apps and two '
+        'migration apps with partly applied chains and up to two declarations (AFTER_/BEFORE_MIGRATIONS per evolution '
+        'and per app, migration dependencies); TLC computes for each of %d configurations the requirements in force '
+        'among pending units and whether they can be met; %d were built as real projects and the order of '
+        'applying_evolution / applying_migration signals judged against them.' % (n3all, n3))
     report.coverage['exhaustive'] = False
     return report.finish()
 
@@ -2605,3 +2614,65 @@ INVARIANT RerunIsNoop
 
 
 REGISTRY.update({'C10': c10})
+
+
+def _c09_migrations(report, tier, nontrivial):
+    """C09 part 3: evolutions and Django migrations in one upgrade (MigGraph.tla)."""
+    import random
+    from concurrent.futures import ThreadPoolExecutor
+    from .common import seed
+    from .engines import miggraph as MG
+    from .tlc import run_tlc, require_ok, write_cfg
+    maxdecl = 2
+    cfg = write_cfg('MC_MigGraph.cfg', '''
+SPECIFICATION Spec
+CONSTANTS
+  GLen = %d
+  MaxDecl = %d
+  EmitRecords = TRUE
+CONSTRAINT Constraint
+INVARIANT ChainsAloneSatisfiable
+''' % (MG.GLEN, maxdecl))
+    res = require_ok(run_tlc('MigGraph', cfg, workers=8, timeout=3000), 'MigGraph.tla')
+    report.add_tlc('MigGraph GLen=%d MaxDecl=%d (reference requirement sets)' % (MG.GLEN, maxdecl), res.stats())
+    recs = res.records
+    rng = random.Random(seed() * 503 + 9)
+    strata = {}
+    for r in recs:
+        kinds = tuple(sorted(d[0] for d in r['decls']))
+        live = sum(1 for x, y in r['req'] if x[0] != y[0] or x[1] != y[1])
+        strata.setdefault((kinds, bool(r['unsat']), min(live, 2)), []).append(r)
+    for k in strata:
+        rng.shuffle(strata[k])
+    limit = 70 if tier == 'quick' else 900
+    chosen = []
+    while len(chosen) < limit and any(strata.values()):
+        for k in sorted(strata, key=repr):
+            if strata[k] and len(chosen) < limit:
+                chosen.append(strata[k].pop())
+    with ThreadPoolExecutor(16) as ex:
+        observations = list(ex.map(MG.run_config, chosen))
+    herr = 0
+    for rec, obs in zip(chosen, observations):
+        report.coverage['evaluations'] += 1
+        label = {'epending': rec['epending'], 'gapplied': rec['gapplied'], 'decls': rec['decls']}
+        if 'setup_error' in obs:
+            herr += 1
+            if herr <= 3:
+                report.notes.append('C09 part 3 setup problem: %s' % str(obs['setup_error'])[:200])
+            continue
+        report.coverage['traces_validated_against_impl'] += 1
+        if rec['decls'] and any(x[0] != y[0] for x, y in rec['req']):
+            nontrivial.add(json_key(label, 'mig'))
+        for cls, info in MG.judge(rec, obs):
+            fp = {'class': cls, 'part': 'migrations',
+                  'decl_kinds': sorted(set(d[0] for d in rec['decls']))}
+            if isinstance(info, dict) and info.get('kinds'):
+                fp['kinds'] = info['kinds']
+            report.fail(fp, dict(label, order=obs.get('order'), outcome=obs.get('outcome'),
+                                 error=obs.get('error_msg'), info=info, unsat=rec['unsat'],
+                                 requirements=rec['req']))
+    if herr > len(chosen) // 5:
+        from .common import machinery_failure
+        machinery_failure('too many setup errors in C09 part 3 (%d of %d)' % (herr, len(chosen)))
+    return len(chosen), len(recs)
